@@ -61,6 +61,10 @@ def cases(tier, seed):
     for k in range(6):
         yield {'kind': 'large', 'k': k}
     yield {'kind': 'fitinvalid'}
+    # the same calls with NumPy scalars of narrow types as arguments (np.uint8(100) on a 1000-row array ...)
+    for tname in ('uint8', 'int8', 'int16', 'uint16', 'int64', 'float32'):
+        for n in (300, 1000):
+            yield {'kind': 'npscalars', 'type': tname, 'n': n}
     import random
     # chunk iteration through a handle whose array was changed by other means (by path, second handle, re-creation)
     yield from hist_stale.array_cases(random.Random(f'C14:{seed}:stale'), 150 if tier == 'quick' else 2000, seed,
@@ -121,6 +125,41 @@ def run_case(case, env):
     sigs = set()
     kind = case['kind']
     res.dim('kind', kind)
+    if kind == 'npscalars':
+        T = getattr(np, case['type'])
+        n = case['n']
+        a, vals = _array(env, (n,), 'int32')
+        sigs = set()
+        for (c, st, b, e) in [(100, None, None, None), (100, 50, 3, n - 97), (7, 120, 0, n), (127, 127, 1, 255), (90, 100, 10, 127)]:
+            hi = {'uint8': 255, 'int8': 127}.get(case['type'], 10 ** 6)
+            if max(c, st or 0) > hi:
+                continue
+            kw = {'stepsize': None if st is None else T(st)}
+            if b is not None and b <= hi:
+                kw['startindex'] = T(b)
+            if e is not None and e <= hi:
+                kw['endindex'] = T(e)
+            bb, ee = int(kw.get('startindex', 0)), int(kw.get('endindex', n))
+            for rem in (True, False):
+                exp = frames(bb, ee, c, c if st is None else st, rem)
+                res.count('mon.npscalar_calls')
+                try:
+                    gi = [(int(x), int(y)) for x, y in a.iterindices(T(c), include_remainder=rem, **kw)]
+                    gc = list(a.iterchunks(T(c), include_remainder=rem, **kw))
+                except Exception as ex:
+                    res.fail(f'npscalar:raised:{type(ex).__name__}', f'iterindices/iterchunks(chunklen=np.{case["type"]}({c}), {kw}) on {n} rows '
+                                                                     f'raised {ex!r}', **case)
+                    continue
+                if gi != exp:
+                    res.fail('npscalar:frames-differ', f'iterindices(chunklen=np.{case["type"]}({c}), {kw}, rem={rem}) on {n} rows = {gi[:6]}..., '
+                                                       f'expected {exp[:6]}... ({len(gi)} vs {len(exp)} frames)', **case)
+                elif len(gc) != len(exp) or any(not np.array_equal(ch, vals[x:y]) for ch, (x, y) in zip(gc, exp)):
+                    res.fail('npscalar:chunks-differ', f'iterchunks(chunklen=np.{case["type"]}({c}), {kw}, rem={rem}) on {n} rows: chunks differ '
+                                                       f'from a[frame] ({sum(len(x) for x in gc)} rows in {len(gc)} chunks)', **case)
+                sigs.add((case['type'], n, c, st, b, e, rem))
+        res.sig = {repr(x) for x in sigs}
+        res.evals = max(1, len(sigs))
+        return res
     if kind == 'stale':
         hist_stale.run_array(env, res, case)
         res.sig = hist_stale.sig_of(case)
